@@ -10,10 +10,13 @@ package gateway
 
 import (
 	"errors"
+	"os"
+	"path/filepath"
 	"testing"
 
 	"github.com/WuKongIM/WuKongIM/internal/usecase/message"
 	"github.com/WuKongIM/WuKongIM/internal/zzverif/kit"
+	"github.com/WuKongIM/WuKongIM/pkg/gateway/core"
 	gatewaytypes "github.com/WuKongIM/WuKongIM/pkg/gateway/types"
 )
 
@@ -67,6 +70,8 @@ func TestVerifGatewaySession(t *testing.T) {
 	}
 	genv := &GsEnv{Seed: env.Seed + 500, Thorough: env.Thorough(), Rand: env.Rand(),
 		Traces: env.Pick(40, 500), TraceOps: env.Pick(20, 30),
+		// pkg/gateway/core/zz_verif_hook.go (overlay/gatewaysession/zz_verif_core_hook.go)
+		SwapSession: core.VerifSwapSession,
 		Inner: func(d *GsDriver, batch bool) gatewaytypes.Handler {
 			h := New(Options{Messages: &gsFakeMessages{d: d}, OwnerNodeID: 1})
 			if batch {
@@ -80,6 +85,20 @@ func TestVerifGatewaySession(t *testing.T) {
 			gb.Steps = append(gb.Steps, GsStep{Ev: s.Ev, St: s.St})
 		}
 		genv.Behs = append(genv.Behs, gb)
+	}
+	// behaviours of the second sim stage (SimRace.cfg: feeds held inside sendExecutor.submit)
+	if dir := os.Getenv("VERIF_BEH_DIR"); dir != "" {
+		raceBehs, err := kit.LoadBehaviours(filepath.Join(dir, "beh_simrace.jsonl"))
+		if err != nil {
+			rep.Infra("race behaviours: %v", err)
+		}
+		for _, b := range raceBehs {
+			gb := GsBehaviour{}
+			for _, s := range b.Steps {
+				gb.Steps = append(gb.Steps, GsStep{Ev: s.Ev, St: s.St})
+			}
+			genv.RaceBehs = append(genv.RaceBehs, gb)
+		}
 	}
 	GsRun(genv, rec, rep)
 	if err := rec.Close(); err != nil {
